@@ -36,10 +36,10 @@ for d in sorted(glob.glob('/verif/seeded/C*-*')):
         s = ' '.join(str(s).split()).replace('|', '/')
         return s if len(s) <= n else s[:n-1] + '…'
     out.append('| %s | %s | %s | %s |' % (os.path.basename(d), clip(m.get('summary', ''), 260), clip(m.get('needs', ''), 200), clip(r, 220)))
-out += ['', 'Every seeded change is now caught by the quick tier of the property it was written against. Four were missed',
- 'at first and led to stronger generators (C07: stateful endpoints that issue no session ids; C10: two requests',
- 'racing with one id plus an event store with a slow `Open`; C12: annotation depth up to 6; C19/C09: the in-memory',
- 'HTTP bridge now bounds the size of client-side body reads so that read boundaries fall inside SSE events).', '']
+missed_first = [os.path.basename(d) for d in sorted(glob.glob('/verif/seeded/C*-*')) if json.load(open(d + '/meta.json')).get('history')]
+out += ['', 'Every seeded change is now caught by the quick tier of the property it was written against. %d of them (%s)' % (len(missed_first), ', '.join(missed_first)),
+ 'were missed at first and led to stronger generators or new arrangements (see the result column); the in-memory HTTP',
+ 'bridge also learnt to bound client-side read sizes and to buffer responses like net/http does.', '']
 s = open('/verif/DESIGN.md').read()
 i = s.find('## 7. Sensitivity')
 if i >= 0: s = s[:i]
